@@ -5,3 +5,4 @@ import CirkitModel.Model.PExpr
 import CirkitModel.Model.Scope
 import CirkitModel.Model.Sym
 import CirkitModel.Model.Num
+import CirkitModel.Model.Templates
